@@ -252,7 +252,7 @@ def judge_design(case, im, mo):
     if ("ok" in mo) != ("package" in im):
         if "ok" in mo:
             yield ("corr", f"the implementation refuses a design the composed model passes: {im.get('reject', '')[:160]}")
-        else:
+        elif mo["error"] != "non-unit step":   # (the exporter's refusal of a stepped slice is permitted, not demanded)
             yield ("pred", {"why": f"a design the composed pass list refuses ({mo['error']}, planted fault: {case['fault']}) was exported"})
         return
     if "ok" not in mo:
@@ -299,6 +299,11 @@ def judge(case, im, mo):
             yield ("corr", f"the implementation refuses a module the composed model passes ({'a stepped slice the model resolves' if stepped else im['reject'][:160]})")
         return
     STATS["accepted"] += 1
+    if not model_ok and mo["error"] == "non-unit step":
+        # the exporter's own refusal (a stepped slice straight from a Signal: VLSIR slices have no step) is permitted, not demanded (DESIGN 6.0):
+        # a code that exports such a slice bit by bit is as right; what it exports is judged by C03 / C01 against Python's selection
+        STATS["stepped_exported_beyond_the_model"] = STATS.get("stepped_exported_beyond_the_model", 0) + 1
+        return
     if not model_ok:
         # the model's refusals are the faults C02 names (module_faults_rejected): a package for such a module is a violation
         yield ("pred", {"why": f"a module the composed pass list refuses ({mo['error']}, planted fault: {case['fault']}) was exported"}, None)
